@@ -80,6 +80,35 @@ def backends_for(cfg, tier):
     return ["ref", "sse2", "ssse3", "sse41", "avx", "avx2"]
 
 
+def boundary_feed_ops(fam, newarg, b, rng, slot=0):
+    """feeding patterns around the block buffer's states (empty / partial / exactly full), including
+    ZERO-LENGTH updates in each of them and updates that fill the buffer exactly or run one byte over:
+    every sequence is followed by `fin`, so the model's digest of the concatenation is the reference"""
+    k = 1 + rng.below(b - 1)
+    seqs = [[b, 0], [b - 1, 1, 0, 0], [0, 2 * b, 0], [k, b], [k, b - k], [k, b - k, 0], [k, 2 * b - k + 1],
+            [k, 0, b - k, 0, 1], [b, 0, 1], [3 * b, 0]]
+    ops = []
+    for sq in seqs:
+        ops.append("%s new %d %s" % (fam, slot, newarg))
+        for n in sq:
+            if n == 0:
+                ops.append("%s update %d -" % (fam, slot))
+            else:
+                ops.append("%s updpat %d %d %d" % (fam, slot, n, rng.below(1000)))
+        ops.append("%s fin %d" % (fam, slot))
+    return ops
+
+
+def rot(seq, cfg):
+    """the variants of a family in an order that depends on the configuration: each configuration is one
+    process, so different configurations make a DIFFERENT variant the first one used in its process
+    (anything resolved once per process by the first caller shows only for some orders)"""
+    seq = list(seq)
+    k = sum(map(ord, cfg)) % len(seq)
+    return seq[k:] + seq[:k]
+
+
+
 def gen_C01(rng, tier, cfg):
     backends = backends_for(cfg, tier)
     ops = []
@@ -88,7 +117,7 @@ def gen_C01(rng, tier, cfg):
     slot = 0
     for be in backends:
         ops.append("cfg backend %s" % be)
-        for v in VARIANTS:
+        for v in rot(VARIANTS, cfg):
             for _ in range(nk):
                 key = struct_bytes(rng, 32)
                 nonce = struct_bytes(rng, NONCE[v])
@@ -364,9 +393,31 @@ def gen_C15(rng, tier, cfg):
             ops.append("guts eq64 0 1")
         ops.append("guts refill 0 %d" % rng.below(11))
         ops.append("guts refill 0 0")
+        # "the output that follows equals that of a state created directly with those values" — through BOTH
+        # output paths (single block and the 4-block batch), at counter values where a lane of the batch
+        # carries: low word 2^32-4 … 2^32-1, the full 64 bits 2^64-4 … 2^64-1
+        hi = rng.choice([0, 7, 2**32 - 1]) << 32
+        cv = rng.choice([hi + 2**32 - 4, hi + 2**32 - 3, hi + 2**32 - 2, hi + 2**32 - 1, 2**64 - 4, 2**64 - 3, 2**64 - 2,
+                         2**64 - 1, rng.below(2**64)])
+        ops.append("guts set 0 0 %d" % cv)
+        ops.append("guts clone 0 2")
+        ops.append("guts refill4 0 %d" % rng.choice([4, 6, 10]))
+        ops.append("guts get 0 0")
+        ops.append("guts get 0 1")
+        ops.append("guts refill 2 10")
+        ops.append("guts get 2 0")
         if rep % 10 == 3:
             ops.append("guts set 0 %d 5" % rng.choice([2, 3, 7]))   # out-of-range parameter: panic
             ops.append("guts get 0 %d" % rng.choice([2, 3, 7]))
+        if rep % 10 == 7:
+            # `param: u32` and the index is `(param << 1) | 1`: the shift discards bit 31, so 2^31 / 2^31+1 ALIAS parameters
+            # 0 / 1 (a silent write), 2^31+2 and 2^32-1 index out of bounds; observe the aliasing through both parameters
+            for hp in (2147483648, 2147483649, 2147483650, 4294967295):
+                ops.append("guts set 0 %d %d" % (hp, rng.choice([5, 2**32 + 7, 2**64 - 1, rng.below(2**64)])))
+                ops.append("guts get 0 0")
+                ops.append("guts get 0 1")
+                ops.append("guts get 0 %d" % hp)
+            stats["high_bit_params"] = stats.get("high_bit_params", 0) + 1
         stats["pairs"] += 1
     return ops, stats
 
@@ -665,13 +716,19 @@ def tf_opname(cfg):
 def gen_C09(rng, tier, cfg):
     op = tf_opname(cfg)
     ops = []
-    stats = {"op": op, "sizes": {}, "vectors": len(TF_VECTORS)}
+    stats = {"op": op, "sizes": {}, "vectors": len(TF_VECTORS), "paths": {}}
     for (size, key, t0, t1, blk) in TF_VECTORS:
         ops.append("%s %s enc %s %d %d %s" % (op, size, hx(key), t0, t1, hx(blk)))
     for size in TF_SIZES:
         cs = tf_cases(rng, tier, size)
-        for (key, t0, t1, blk) in cs:
-            ops.append("%s %s enc %s %d %d %s" % (op, size, hx(key), t0, t1, hx(blk)))
+        for i, (key, t0, t1, blk) in enumerate(cs):
+            # every public API path to the block function: single block, block slice, par-blocks,
+            # `&Alg` forwarding (and `new()` instead of `with_tweak` when the tweak is zero)
+            d = "enc" if i % 4 else ("encs", "encp", "encr")[(i // 4) % 3]
+            ops.append("%s %s %s %s %d %d %s" % (op, size, d, hx(key), t0, t1, hx(blk)))
+            stats["paths"][d] = stats["paths"].get(d, 0) + 1
+        for d in ("encs", "encp", "encr"):
+            ops.append("%s %s %s %s 0 0 %s" % (op, size, d, hx(cs[0][0]), hx(cs[0][3])))   # `new()` constructor
         stats["sizes"][size] = len(cs)
     return ops, stats
 
@@ -682,15 +739,21 @@ def gen_C10(rng, tier, cfg):
     block that the real code fails to recover."""
     op = tf_opname(cfg)
     ops = []
-    stats = {"op": op, "sizes": {}, "dirs": ["dec", "encdec", "decenc"]}
+    stats = {"op": op, "sizes": {}, "dirs": ["dec", "encdec", "decenc"], "paths": {}}
     for (size, key, t0, t1, blk) in TF_VECTORS:
         for d in ("dec", "encdec", "decenc"):
             ops.append("%s %s %s %s %d %d %s" % (op, size, d, hx(key), t0, t1, hx(blk)))
     for size in TF_SIZES:
         cs = tf_cases(rng, tier, size)
-        for (key, t0, t1, blk) in cs:
-            for d in ("dec", "encdec", "decenc"):
+        alt = [("decs", "encsdecs", "decsencs"), ("decp", "encpdecp", "decsenc"), ("decr", "encrdecr", "encdecs")]
+        for i, (key, t0, t1, blk) in enumerate(cs):
+            # every fourth case goes through another public API path (block slice / par-blocks / `&Alg`)
+            ds = ("dec", "encdec", "decenc") if i % 4 else alt[(i // 4) % 3]
+            for d in ds:
                 ops.append("%s %s %s %s %d %d %s" % (op, size, d, hx(key), t0, t1, hx(blk)))
+                stats["paths"][d] = stats["paths"].get(d, 0) + 1
+        for d in ("decs", "decp", "decr", "encsdecs"):
+            ops.append("%s %s %s %s 0 0 %s" % (op, size, d, hx(cs[0][0]), hx(cs[0][3])))   # `new()` constructor
         stats["sizes"][size] = len(cs)
     return ops, stats
 
@@ -745,15 +808,26 @@ def gen_C05(rng, tier, cfg):
         ops.append("skein fin %d" % slot)
         stats["lengths"][ln] = stats["lengths"].get(ln, 0) + 1
 
+    # instances of one state size with DIFFERENT type-level output lengths created back to back in one
+    # process, among them N and 8·N (bytes vs bits), N and N±1, small after large: anything remembered
+    # across instances (a process-wide cache of the configured initial value, say) shows only here
+    for size, b in SKEIN_B.items():
+        for (n1, n2) in ((32, 256), (256, 32), (8, 64), (1, 8), (64, 8), (32, 33), (64, 63), (1000, 128)):
+            one("%s-%d" % (size, n1), b, rng.choice([0, 3, b + 1]), False)
+            one("%s-%d" % (size, n2), b, rng.choice([0, 3, b + 1]), False)
+            stats["parameter_pairs"] = stats.get("parameter_pairs", 0) + 1
     # outputs of more than 256 counter-mode blocks (block index needs more than one byte)
     for size, n in (("256", 8256), ("512", 16512), ("1024", 33024)):
         for ln in ((0, 5) if tier == "quick" else (0, 1, SKEIN_B[size], 3 * SKEIN_B[size] + 1)):
             one("%s-%d" % (size, n), SKEIN_B[size], ln, False)
         stats["variants"] += 1
-    for size, b in SKEIN_B.items():
+    for size, b in rot(SKEIN_B.items(), cfg):
         for n in SKEIN_N:
             variant = "%s-%d" % (size, n)
             stats["variants"] += 1
+            if n in (7, 64, 200):
+                ops.extend(boundary_feed_ops("skein", variant, b, rng, slot))
+                stats["boundary_feeds"] = stats.get("boundary_feeds", 0) + 1
             lens = skein_lengths(b)
             if tier == "quick":
                 # every N sees the boundary lengths; the rest of the catalogue rotates
@@ -855,7 +929,9 @@ def gen_C04(rng, tier, cfg):
     slot = 0
     for be in backends:
         ops.append("cfg backend %s" % be)
-        for bits, (w, b) in BLAKE_VARIANTS.items():
+        for bits, (w, b) in rot(BLAKE_VARIANTS.items(), cfg):
+            ops.extend(boundary_feed_ops("blake", str(bits), b, rng))
+            stats["boundary_feeds"] = stats.get("boundary_feeds", 0) + 1
             lens = blake_lengths(b, tier)
             if tier == "quick" and be != backends[0]:
                 lens = [n for n in lens if n in (0, 1, b - 2 * w // 8 - 1, b - 2 * w // 8, b - 1, b, b + 1, 2 * b, 300)]
@@ -1269,7 +1345,9 @@ def gen_C06(rng, tier, cfg):
         ops.append("jh f8 %s %s" % ("ff" * 128, "ff" * 64))
         stats["f8"] += 2
         # --- hashers: one-shot and split updates
-        for n in JH_SIZES:
+        for n in rot(JH_SIZES, cfg):
+            ops.extend(boundary_feed_ops("jh", str(n), 64, rng))
+            stats["boundary_feeds"] = stats.get("boundary_feeds", 0) + 1
             use = lens if (tier != "quick" or bi == 0) else [rng.choice(lens) for _ in range(8)]
             for ln in use:
                 slot = (slot + 1) % 8
@@ -1382,8 +1460,10 @@ def gen_C07(rng, tier, cfg):
     ops = []
     stats = {"lengths": {}, "updates": 0, "spec_ops": 0, "counter_cases": 0, "variants": list(G_BITS)}
     base = [0, 1, 54, 55, 56, 57, 63, 64, 65, 119, 120, 121, 127, 128, 129]
-    for bits in G_BITS:
+    for bits in rot(G_BITS, cfg):
         b = g_block(bits)
+        ops.extend(boundary_feed_ops("groestl", str(bits), b, rng))
+        stats["boundary_feeds"] = stats.get("boundary_feeds", 0) + 1
         lens = set(base)
         for k in (1, 2, 3):
             for d in (9, 8, 7):
